@@ -939,7 +939,7 @@ int main(int argc, char** argv) {
     } else if (!strcmp(md, "equal-due")) {
       int N = opts.scale >= 2 ? (int)opts.scale : 8;
       long total = 0; for (int n = 2; n <= N; ++n) total += 2L * n * n;
-      long lo = opts.cases < 0 ? 0 : opts.start, hi = opts.cases < 0 ? total : opts.start + opts.cases; if (hi > total) hi = total;
+      long lo = opts.cases < 0 ? 0 : opts.start, hi = opts.cases < 0 ? total : opts.start + opts.cases;   // an explicit range (replay) is not clamped: the decoding is total-independent
       for (long idx = lo; idx < hi; ++idx) { if (!mine(idx)) continue; beginCase(idx); equalDueCase(idx); }
     } else harnessBug("unknown mode %s", md);
     if (g_rawListen >= 0) { rawCleanup(); close(g_rawListen); close(g_closedSock); }
